@@ -242,7 +242,7 @@ def params_for(rnd, kind, n):
         return [str(rnd.choice([0, 10, 50])), str(rnd.choice([1, 8, 20, 60, 200, 1 << 20])), str(rnd.choice([1, 2, 3]))]
     if kind == "FMINDEX":
         sparse = rnd.choice([0, 0, 1])
-        bparam = rnd.choice([2, 4, 20]) if not sparse else rnd.choice([2, 16, 32])
+        bparam = rnd.choice([2, 4, 20]) if not sparse else rnd.choice([2, 3, 5, 16, 32, 33])
         return [str(sparse), str(bparam), str(rnd.choice([0, 1, 2, 3, 8, 64]))]
     return []
 
